@@ -17,7 +17,7 @@ Open Scope Q_scope.
 def run(res, replay=None):
     rng = random.Random(res.seed)
     res.rule = ('mutation stream: single-epoch configurations (n<=4, thorough n<=5; 1-2 demes; three models; dyadic theta '
-                'in {0, 1/16, 1/4, 1, 2}); every unfolded configuration with <= 3 (thorough 4) mutations: probability '
+                'in {0, 1/16, 1/4, 1, 2}; plus Beta/Dirac with n = 5..7 in one deme); every unfolded configuration with <= 3 (thorough 4) mutations: probability '
                 'compared with the exact-rational Gallina model (Gauss-Jordan inverse, distinct orderings) at 1e-9; '
                 '_get_configs and _unfold compared exactly with the model; oracles on the implementation: non-negativity, '
                 'running generated mass (iterator bookkeeping exact, non-decreasing, <= 1), empty configuration = Laplace '
@@ -44,6 +44,15 @@ def run(res, replay=None):
                 cf.append(v)
             cases.append({'spec': {'n_items': [['a', n_big]], 'model': {'kind': 'kingman'}, 'pop_sizes': {'a': {'0.0': 1.0}}},
                           'theta': 1.0, 'max_mut': 3, 'configs': cf})
+    if not replay:
+        # multiple mergers with n >= 5: the block-counting generator is no longer triangular in enumeration order
+        for n_mm, mdl in ((5, {'kind': 'beta', 'alpha': 1.5, 'scale_time': False}), (6, {'kind': 'dirac', 'psi': 0.5, 'c': 2.0, 'scale_time': False}),
+                          (5, {'kind': 'dirac', 'psi': 0.25, 'c': 1.0, 'scale_time': True})) if res.tier == 'quick' else \
+                         ((5, {'kind': 'beta', 'alpha': 1.5, 'scale_time': False}), (6, {'kind': 'beta', 'alpha': 1.25, 'scale_time': False}),
+                          (6, {'kind': 'dirac', 'psi': 0.5, 'c': 2.0, 'scale_time': False}), (5, {'kind': 'dirac', 'psi': 0.25, 'c': 1.0, 'scale_time': True}),
+                          (7, {'kind': 'beta', 'alpha': 1.75, 'scale_time': False})):
+            cases.append({'spec': {'n_items': [['a', n_mm]], 'model': mdl, 'pop_sizes': {'a': {'0.0': rng.choice([0.5, 1.0, 2.0])}}},
+                          'theta': rng.choice([0.25, 1.0]), 'max_mut': 2})
     for c in cases:
         c['perm_items'] = [[rng.choice([1, 2, 3, 8, 9, 11, 16]) for _ in range(rng.randrange(1, 6))] for _ in range(6)] + [[1, 1, 8], [8, 8, 1], [2, 9, 9, 9]]
     outs = C.run_impl_parallel('mutation.py', [{'cases': [c]} for c in cases], timeout=1800)
